@@ -1,6 +1,6 @@
 SPECIFICATION Spec
 CONSTANTS
-  MaxEvents = 6
+  MaxEvents = 7
   MaxReq = 2
   SubIds = {1}
   RegIds = {1}
